@@ -122,6 +122,9 @@ enum Stray {
     TmpFile,
     DirNamedLikeId,
     ForeignDataDir,
+    /// foreign directories next to the type directories whose names start with a type directory's
+    /// name (`index.bak`, `snapshots-old`, `keys2`, `database`) and hold id-named files
+    PrefixSiblings,
 }
 
 fn plant_strays(dir: &Path, strays: &[Stray]) {
@@ -138,7 +141,13 @@ fn plant_strays(dir: &Path, strays: &[Stray]) {
                 Stray::TmpFile => _ = fs::write(d.join(format!("{}-tmp-", i[0].to_hex().as_str())), b"partial"),
                 // a directory whose name is a valid id (one that no operation uses)
                 Stray::DirNamedLikeId => _ = fs::create_dir_all(d.join(format!("ef{}", "44".repeat(31)))),
-                Stray::ForeignDataDir => {}
+                Stray::ForeignDataDir | Stray::PrefixSiblings => {}
+            }
+        }
+        if *s == Stray::PrefixSiblings {
+            for (d, k) in [("index.bak", 0usize), ("snapshots-old", 1), ("keys2", 2), ("database", 0), ("database/ab", 1)] {
+                _ = fs::create_dir_all(dir.join(d));
+                _ = fs::write(dir.join(d).join(i[k].to_hex().as_str()), b"foreign file with an id-like name in a sibling directory");
             }
         }
         if *s == Stray::ForeignDataDir {
@@ -432,7 +441,7 @@ fn run(args: &Args, rep: &mut Report, sb: &Path) {
     let depth = if quick { 3 } else { 4 };
     let ncontent = if quick { 2 } else { 4 };
     rep.set_meta("bounds", json!(format!("BFS depth {depth} over write/remove on types {{config, snapshot, pack}} x 3 ids (two sharing a data/xx directory) x {ncontent} contents (0 B, 4097 B{}), depth 2 over all five types; after every step every list, list_with_size, read_full of every id and read_partial over the grid {{0,1,mid,len-1,len,4095,4096}}^2 in range is compared with the map model; for LocalBackend additionally with each single stray kind and all strays together; crash image at the pre-publish hook of every LocalBackend write; contents are handed over as lists of parts in 8 patterns (one part, two, empty parts first / in the middle / last, 1500-byte pieces), every pattern x 4 contents x 3 backends explicitly", if quick { "" } else { ", 1 B, 3 MiB" })));
-    let all_strays = vec![Stray::NonHex, Stray::Hex63, Stray::Hex65, Stray::TmpFile, Stray::DirNamedLikeId, Stray::ForeignDataDir];
+    let all_strays = vec![Stray::NonHex, Stray::Hex63, Stray::Hex65, Stray::TmpFile, Stray::DirNamedLikeId, Stray::ForeignDataDir, Stray::PrefixSiblings];
     let mut configs: Vec<(Kind, Vec<Stray>)> = vec![(Kind::Local, vec![]), (Kind::OpendalFs, vec![]), (Kind::OpendalMemory, vec![]), (Kind::Local, all_strays.clone()), (Kind::OpendalFs, all_strays.clone())];
     let mut first_level = 0usize;
     for (kind, strays) in configs.drain(..) {
@@ -545,7 +554,7 @@ fn run(args: &Args, rep: &mut Report, sb: &Path) {
     // single stray kinds incl. upper-case hex names, short histories
     if args.shard == 0 {
         for kind in [Kind::Local, Kind::OpendalFs] {
-            for s in [Stray::NonHex, Stray::Hex63, Stray::Hex65, Stray::UpperHex, Stray::TmpFile, Stray::DirNamedLikeId, Stray::ForeignDataDir] {
+            for s in [Stray::NonHex, Stray::Hex63, Stray::Hex65, Stray::UpperHex, Stray::TmpFile, Stray::DirNamedLikeId, Stray::ForeignDataDir, Stray::PrefixSiblings] {
                 let case = Case { kind, strays: vec![s.clone()], history: vec![Op::Write { tpe: 2, id: 0, content: 1, split: None }, Op::Write { tpe: 4, id: 1, content: 2, split: None }, Op::Remove { tpe: 2, id: 0 }] };
                 rep.inc("executions");
                 rep.inc("single_stray_cases");
